@@ -3,7 +3,7 @@ import ast
 
 from .. import alg
 from ..alg import Poly, P, B, C, L, sym, mk_fn
-from ..interp import Interp, Hooks, Arr, Obj, Unk, SymTable, symarr, scalar, num
+from ..interp import Interp, Hooks, Arr, Obj, Unk, SymTable, symarr, scalar, num, Foreign, Fmt
 from ..fitmodel import loc, compare
 from ..astutil import up, walk_local, stores, chain, calls, const, root_name, enclosing_map
 from ..rules import where
@@ -23,7 +23,7 @@ EXPLANATION = (
 NOT_DECIDED = ["text formatting widths", "np.isin / argsort library semantics"]
 ASSUMPTIONS = ["model names are unique in the parameter table and in a fit (package invariant)"]
 TRUSTED = ["python ast", "sedlint E4/E5"]
-MIN = {'PERM-9': 3, 'CFG-6': 1, 'AGREE-6': 5, 'ALG-20': 4, 'PERM-8': 2, 'API-1': 5, 'CFG-10': 3}
+MIN = {'PERM-9': 3, 'CFG-6': 1, 'AGREE-6': 5, 'ALG-20': 5, 'PERM-8': 2, 'API-1': 5, 'CFG-10': 3}
 
 CALLERS = [('write_parameters', 'write_parameters'), ('write_parameter_ranges', 'write_parameter_ranges'), ('extract_parameters', 'extract_parameters'),
            ('plot_params_1d', 'plot_params_1d'), ('plot_params_2d', 'plot_params_2d')]
@@ -71,7 +71,174 @@ def check_filter_table(ctx):
     ctx.expect(ok, 'PERM-9', 'additional parameters attached by model name', where_, 'row i receives additional[par][name of row i]', 'additional parameters are not looked up by the row\'s model name', 'additional-by-name')
 
 
-def check_callers(ctx):
+
+# ---------------------------------------------------------------- the consumers, interpreted
+
+class _FileStand(Foreign):
+    """FitInfoFile stand-in: iterates over one generic result; .meta is that result's metadata"""
+    def __init__(self, hooks):
+        self.hooks = hooks
+
+    def sl_iter(self, interp):
+        return [self.hooks.record]
+
+    def sl_method(self, interp, name, args, kw, node):
+        if name in ('close', 'write'):
+            return None
+        return NotImplemented
+
+    def sl_getattr(self, interp, name, node):
+        if name == 'meta':
+            return self.hooks.record.attrs.get('meta')
+        return NotImplemented
+
+
+class _Sink(Foreign):
+    def __init__(self):
+        self.writes = []
+
+    def sl_method(self, interp, name, args, kw, node):
+        if name == 'write':
+            self.writes.append((args[0] if args else None, interp.path_cond()))
+            return None
+        if name in ('close', 'flush'):
+            return None
+        return NotImplemented
+
+
+class ConsumerHooks(Hooks):
+    def __init__(self, repo):
+        self.captured, self.sink = [], _Sink()
+        meta = Obj(repo.cls('fit_info', 'FitInfoMeta'), {'model_dir': 'DIR', 'filters': [], 'extinction_law': None})
+        src = Obj(repo.cls('source.source', 'Source'), {'_valid': symarr('valid', ('w',), unit=num(1)), '_name': 'S'})
+        self.record = Obj(repo.cls('fit_info', 'FitInfo'), {'source': src, 'chi2': symarr('chi2', (R_,), unit=num(1)), 'av': symarr('av', (R_,), unit=num(1)), 'sc': symarr('sc', (R_,), unit=num(1)),
+                                                            'model_name': symarr('mname', (R_,)), 'model_id': symarr('model_id', (R_,)), 'model_fluxes': None, 'meta': meta})
+
+    def construct(self, interp, ci, args, kwargs, node):
+        if ci.name == 'FitInfoFile':
+            return _FileStand(self)
+        return NotImplemented
+
+    def opaque(self, interp, fi, args, kwargs, node):
+        q = fi.qual
+        if q.endswith(':load_parameter_table'):
+            return SymTable({'MODEL_NAME': symarr('tname', (T_,)), 'P1': symarr('p1', (T_,), unit=num(1))}, T_)
+        if q.endswith(':FitInfo.filter_table'):
+            self.captured.append((args, kwargs))
+            return SymTable({'MODEL_NAME': symarr('fname', (R_,)), 'P1': symarr('fp1', (R_,), unit=num(1))}, R_)
+        if q.endswith(':FitInfo.keep') or q.endswith(':create_dir') or fi.name in ('get_axes', 'tex_friendly'):
+            return None
+        return NotImplemented
+
+    def external(self, interp, name, args, kwargs, node, mod):
+        if name == 'builtins.open':
+            return self.sink
+        return NotImplemented
+
+
+CONSUMER_ARGS = {'write_parameters': (['IN', 'OUT'], {}), 'write_parameter_ranges': (['IN', 'OUT'], {}), 'extract_parameters': ([], {'input': 'IN', 'output_prefix': 'OUT', 'output_suffix': ''}),
+                 'plot_params_1d': (['IN', 'P1', 'OUTDIR'], {}), 'plot_params_2d': (['IN', 'P1', 'P1', 'OUTDIR'], {})}
+
+
+def run_consumer(repo, module, func):
+    h = ConsumerHooks(repo)
+    I = Interp(repo, h)
+    a, k = CONSUMER_ARGS[func]
+    r = I.call(repo.func(module, func), list(a), dict(k))
+    return I, h, r
+
+
+def check_callers_semantic(ctx):
+    """(AGREE-6) each consumer is interpreted up to its call of filter_table: the table it hands over is the parameter table with stripped names,
+    every column re-ordered by increasing stripped name - wherever and however the function (or a helper of it) does the stripping and sorting"""
+    repo = ctx.repo
+    decided = True
+    tn = mk_fn('strip', P(sym('tname', T_)))
+    order = alg.array_fn('argsort', T_, tn)
+    for module, func in CALLERS:
+        fi = ctx.fn(repo.func(module, func))
+        inst = '%s: table passed to filter_table is stripped and name-sorted' % func
+        try:
+            I, h, r = run_consumer(repo, module, func)
+        except Exception as e:
+            ctx.undecided('AGREE-6', inst, loc(fi), 'not interpreted: %s' % e); decided = False
+            continue
+        tabs = [a[1] if len(a) > 1 else k.get('input_table') for a, k in h.captured]
+        if not tabs or not all(isinstance(t, SymTable) for t in tabs):
+            ctx.undecided('AGREE-6', inst, loc(fi), 'the table handed to filter_table was not captured (%r)' % (r,)); decided = False
+            continue
+        t = tabs[0]
+        bad, unknown = [], []
+        for c, base in (('MODEL_NAME', tn), ('P1', sym('p1', T_))):
+            col = t.cols.get(c)
+            if not isinstance(col, Arr):
+                unknown.append(c)
+                continue
+            ref = mk_fn('at', B(T_, base), P(order))
+            got = col.poly if c != 'MODEL_NAME' else col.poly
+            if not (alg.is_zero(got - ref)[0] or (c == 'MODEL_NAME' and alg.is_zero(mk_fn('strip', P(got)) - ref)[0])):
+                syms, fns = alg.leaf_syms(got - ref)
+                (bad if syms <= {'tname', 'p1'} and fns <= {'strip', 'argsort', 'at', 'sort', 'rev'} else unknown).append('%s = %s' % (c, alg.show(got, 100)))
+        if bad:
+            ctx.violation('AGREE-6', inst, loc(fi), 'the table reaches filter_table as %s: not the stripped names in increasing order with every column re-ordered alike, so the rank re-index '
+                          'pairs fits with other models\' parameters or the post-check raises' % '; '.join(bad), 'not-name-sorted')
+        elif unknown:
+            ctx.undecided('AGREE-6', inst, loc(fi), 'columns not decided: %s' % unknown); decided = False
+        else:
+            ctx.ok('AGREE-6', inst, loc(fi), 'MODEL_NAME == strip(names)[argsort(strip(names))], the other columns re-ordered by the same order')
+    return decided
+
+
+def check_ranges_semantic(ctx):
+    """(ALG-20) write_parameter_ranges interpreted on one generic result: what it writes contains, for chi2, A_V, scale and a parameter column of the filtered
+    table, the three values (nanmin(x), x[0], nanmax(x)) next to each other"""
+    repo = ctx.repo
+    fi = ctx.fn(repo.func('write_parameter_ranges', 'write_parameter_ranges'))
+    try:
+        I, h, r = run_consumer(repo, 'write_parameter_ranges', 'write_parameter_ranges')
+    except Exception as e:
+        ctx.undecided('ALG-20', 'ranges written', loc(fi), 'not interpreted: %s' % e)
+        return False
+    seq = []
+    for w, cond in h.sink.writes:
+        if isinstance(w, Fmt):
+            seq += [v.poly for v in w.values if isinstance(v, Arr)]
+        elif isinstance(w, Unk):
+            seq.append(None)
+    if not [x for x in seq if x is not None]:
+        ctx.undecided('ALG-20', 'ranges written', loc(fi), 'no formatted values captured')
+        return False
+    decided = True
+    for name, x in (('info.chi2', sym('chi2', R_)), ('info.av', sym('av', R_)), ('info.sc', sym('sc', R_)), ('a parameter column', sym('fp1', R_))):
+        want = (mk_fn('nanmin', B(R_, x)), mk_fn('at', B(R_, x), P(Poly())), mk_fn('nanmax', B(R_, x)))
+        hit = any(all(seq[i + k] is not None and seq[i + k] == want[k] for k in range(3)) for i in range(len(seq) - 2))
+        inst = 'range of %s' % name
+        if hit:
+            ctx.ok('ALG-20', inst, loc(fi), '(nanmin(x), x[0], nanmax(x)) written together')
+            continue
+        mentions = [alg.show(p_, 60) for p_ in seq if p_ is not None and alg.leaf_syms(p_)[0] & alg.leaf_syms(x)[0]]
+        if not mentions:
+            ctx.undecided('ALG-20', inst, loc(fi), 'values written for it not captured'); decided = False
+        else:
+            ctx.violation('ALG-20', inst, loc(fi), 'writes %s for it, not (nanmin(x), x[0], nanmax(x))' % mentions[:4], 'range-triple')
+    # the two counts printed with every source
+    v = sym('valid', 'w')
+    nd = alg.sum_over(alg.eq(v, 1), 'w') + alg.sum_over(alg.eq(v, 4), 'w')
+    nf = alg.count(R_)
+    known = [p_ for p_ in seq if p_ is not None]
+    has_nd, has_nf = any(p_ == nd for p_ in known), any(p_ == nf for p_ in known)
+    if has_nd and has_nf:
+        ctx.ok('ALG-20', 'n_data and n_fits columns', loc(fi), 'info.source.n_data and info.n_fits')
+    else:
+        others = [alg.show(p_, 60) for p_ in known if alg.leaf_syms(p_)[0] <= {'valid'} or (not alg.leaf_syms(p_)[0] and 'len' in alg.leaf_syms(p_)[1])]
+        if None in seq and not others:
+            ctx.undecided('ALG-20', 'n_data and n_fits columns', loc(fi), 'values written not captured'); decided = False
+        else:
+            ctx.violation('ALG-20', 'n_data and n_fits columns', loc(fi), 'n_data / n_fits are not taken from info.source.n_data / info.n_fits (count-like values written: %s)' % others[:4], 'counts')
+    return decided
+
+
+def check_callers_syntactic(ctx):
     repo = ctx.repo
     for module, func in CALLERS:
         fi = ctx.fn(repo.func(module, func))
@@ -125,7 +292,7 @@ def names_in_consumer(fi):
     return rec, tab
 
 
-def check_ranges(ctx):
+def check_ranges_syntactic(ctx):
     repo = ctx.repo
     fi = ctx.fn(repo.func('write_parameter_ranges', 'write_parameter_ranges'))
     rec, tab = names_in_consumer(fi)
@@ -192,6 +359,25 @@ def check_row_index(ctx):
             ok = any(('%s.source.n_data' % rec) in up(c) for c in calls(fi.node))
             ctx.expect(ok and any(up(c).endswith('%% %s.n_fits)' % rec) for c in calls(fi.node)), 'PERM-8', '%s: n_data and n_fits' % func, where(fi), 'info.source.n_data and info.n_fits',
                        'n_data / n_fits not taken from the record', 'counts')
+
+
+def check_callers(ctx):
+    """decided by interpreting the consumers; the syntactic typestate rule is the fall-back and may only say undecided"""
+    from ..roundtrip import SuspectCtx
+    if not check_callers_semantic(ctx):
+        try:
+            check_callers_syntactic(SuspectCtx(ctx, 'the consumer was not decided by interpretation and the syntactic rule, which knows one spelling only, reports'))
+        except AnalysisError as e:
+            ctx.undecided('AGREE-6', 'syntactic fall-back', 'sedfitter', 'structure not recognised: %s' % e)
+
+
+def check_ranges(ctx):
+    from ..roundtrip import SuspectCtx
+    if not check_ranges_semantic(ctx):
+        try:
+            check_ranges_syntactic(SuspectCtx(ctx, 'the ranges were not decided by interpretation and the syntactic rule, which knows one spelling only, reports'))
+        except AnalysisError as e:
+            ctx.undecided('ALG-20', 'syntactic fall-back', 'sedfitter/write_parameter_ranges.py', 'structure not recognised: %s' % e)
 
 
 def run(ctx):
